@@ -777,3 +777,12 @@ M("C06-paramlist-drops-ellipsis", "C06", "src/cppparser/cppParameterList.cxx",
   "  CPPParameterList *rep = new CPPParameterList;\n  rep->_includes_ellipsis = _includes_ellipsis;\n  bool any_changed = false;\n  for (int i = 0; i < (int)_parameters.size(); ++i) {\n    CPPInstance *inst =\n      _parameters[i]->substitute_decl",
   "  CPPParameterList *rep = new CPPParameterList;\n  bool any_changed = false;\n  for (int i = 0; i < (int)_parameters.size(); ++i) {\n    CPPInstance *inst =\n      _parameters[i]->substitute_decl",
   expect="R06.5|CPPParameterList::substitute_decl")
+
+M("C06-changed-flag-overwritten", "C06", "src/cppparser/cppExpression.cxx",
+  "      ->as_expression();\n    any_changed = any_changed || (rep->_u._op._op1 != _u._op._op1);\n    break;\n\n  case T_typeid_type:",
+  "      ->as_expression();\n    any_changed = (rep->_u._op._op1 != _u._op._op1);\n    break;\n\n  case T_typeid_type:",
+  expect="R06.6|CPPExpression::substitute_decl|any_changed")
+M("C06-benign-changed-flag-or-assign", "C06", "src/cppparser/cppExpression.cxx",
+  "      ->as_expression();\n    any_changed = any_changed || (rep->_u._op._op1 != _u._op._op1);\n    break;\n\n  case T_typeid_type:",
+  "      ->as_expression();\n    if (rep->_u._op._op1 != _u._op._op1) {\n      any_changed = true;\n    }\n    break;\n\n  case T_typeid_type:",
+  benign=True)
